@@ -44,10 +44,10 @@ fn ex_len(tier: Tier) -> u64 {
 
 fn jobs(plan: &Plan) -> Vec<Job> {
     let t = plan.tier;
-    let mut v = entry_jobs(plan, "C02", "short", t.pick(16, 600, 1), |_| true);
+    let mut v = entry_jobs(plan, "C02", "short", t.pick(40, 600, 1), |_| true);
     v.extend(entry_jobs(plan, "C02", "long", t.pick(2, 24, 0), |_| true));
     v.extend(entry_jobs(plan, "C02", "exhaustive", ex_len(t) + 1, |d| EXHAUSTIVE.contains(&d.label)));
-    v.extend(stack_jobs(plan, "C02", "stack", t.pick(4, 120, 0), |_| true));
+    v.extend(stack_jobs(plan, "C02", "stack", t.pick(10, 120, 0), |_| true));
     v
 }
 
